@@ -18,7 +18,8 @@ Code map (line numbers of Include/BigInt.hpp):
   add/addLoop 221-242 · sub/subLoop/trim 244-267 · multiply/mulFrom 269-277 · divide/divFrom 279-301
   shiftRight (moveDown, zeroTop, shrBits) 303-343 · shiftLeft (moveUp, zeroLow, trimIdx, shlBits) 345-402
   findFirstBit/findLastBit 404-416 · clear 422-429 · comparisons 137-183 · narrow 113-135
-  assign (operator=(number)) 83-94 · opNarrow 499-528 · opWide 530-622 · copy 483-497
+  assign (operator=(number)) 83-94 · opNarrow 499-528 · opWide 530-622 · copy 483-497 (operator=(const BigInt&),
+  operator=(BigInt&&) = copy then src.Clear(); `Op2`/`step2` run them between two objects)
   mulNative/divNative 611-681 (DoubleSize<_,8|16|32>) · divHand/mulHand 684-788 (DoubleSize<_,64>,
   transcribed for any half width h, W = 2h).
 No proofs in this file; core Lean only.
@@ -588,10 +589,11 @@ def copyLoop (src : List Nat) (sidx : Nat) : Nat → List Nat → Nat → M (Lis
       copyLoop src sidx fuel ws (index + 1)
     else pure (ws, index)
 
-/-- `while (index_ > index) { storage_[index_] = 0; --index_; }` -/
+/-- `while (index_ >= index) { storage_[index_] = 0; --index_; }` from `index_ = i` (as repaired by
+da1b555; `index = src.index_ + 1 ≥ 1`, so the loop has stopped when `index_` reaches 0). -/
 def zeroAbove (index : Nat) (ws : List Nat) : Nat → M (List Nat)
   | 0 => pure ws
-  | i + 1 => if i + 1 > index then do
+  | i + 1 => if i + 1 ≥ index then do
       let ws ← wr ws (i + 1) 0
       zeroAbove index ws i
     else pure ws
@@ -647,6 +649,36 @@ def run (c : Cfg) : Big → List Op → M (Big × List Ret)
     let (s, rs) ← run c s os
     pure (s, r :: rs)
 
+/-! ### Two objects: copy / move assignment between `x` and a second object `t` -/
+
+inductive Op2 where
+  | on (o : Op)   -- an operation on `x`
+  | save          -- t = x   (copy assignment)
+  | load          -- x = t   (copy assignment)
+  | move          -- x = std::move(t)  (copy, then t.Clear())
+  deriving Repr, DecidableEq
+
+structure Pair where
+  x : Big
+  t : Big
+  deriving Repr, DecidableEq
+
+def step2 (c : Cfg) (p : Pair) : Op2 → M (Pair × Ret)
+  | .on o => do let (x, r) ← step c p.x o; pure (⟨x, p.t⟩, r)
+  | .save => do let t ← copy p.t p.x; pure (⟨p.x, t⟩, .none)
+  | .load => do let x ← copy p.x p.t; pure (⟨x, p.t⟩, .none)
+  | .move => do
+    let x ← copy p.x p.t
+    let t ← clear p.t
+    pure (⟨x, t⟩, .none)
+
+def run2 (c : Cfg) : Pair → List Op2 → M (Pair × List Ret)
+  | p, [] => pure (p, [])
+  | p, o :: os => do
+    let (p, r) ← step2 c p o
+    let (p, rs) ← run2 c p os
+    pure (p, r :: rs)
+
 def cmpSpec (r : Cmp) (a x : Nat) : Bool :=
   match r with
   | .lt => decide (a < x) | .le => decide (a ≤ x) | .gt => decide (a > x)
@@ -683,6 +715,16 @@ def specStep (W n : Nat) (a : Nat) : Op → Option (Nat × Ret)
   | .ffb => if a ≠ 0 then some (a, .nat (val2 a)) else none
   | .flb => if a ≠ 0 then some (a, .nat a.log2) else none
   | .clear => some (0, .none)
+
+/-- The specification for two objects holding `a` (x) and `b` (t). -/
+def specStep2 (W n : Nat) (a b : Nat) : Op2 → Option (Nat × Nat × Ret)
+  | .on o =>
+    match specStep W n a o with
+    | some (a', r) => some (a', b, r)
+    | none => none
+  | .save => some (a, a, .none)
+  | .load => some (b, b, .none)
+  | .move => some (b, 0, .none)
 
 /-- The little-endian base-2^W digits of `a`, `n` of them. -/
 def digits (W : Nat) : Nat → Nat → List Nat
